@@ -147,6 +147,19 @@ impl<'a> Driver<'a> {
         self.absorb(s);
         self.total.subspace(name, n, false);
     }
+    /// The very first inputs of the process: the slips, each right after its well-formed base, on
+    /// ONE thread in list order, before anything else has gone through the library (a bounded memo
+    /// fills up with whatever comes first and never sees later inputs). Not counted: the same items
+    /// are evaluated and counted again by `list` at their usual place.
+    pub fn first(&mut self, items: &[Vec<u8>]) {
+        let f = self.f;
+        let mut st = Stats::new();
+        for b in items {
+            f(b, &mut st, Count::No);
+        }
+        self.absorb(st);
+        self.total.subspace("hidden state from a cold start: sanitisation slips, each right after its base, as the first inputs of the process (one thread, list order)", items.len() as u64, true);
+    }
     pub fn list(&mut self, name: &str, items: &[Vec<u8>]) {
         let f = self.f;
         let spaces = &self.spaces;
@@ -237,6 +250,7 @@ pub const SPECIAL_WORDS: &[&str] = &[
 /// The language-identifier space of C02 / C13 / C19.
 pub fn langid_space(cfg: &Cfg, tag: &str, f: &ByteCheck<'_>) -> Stats {
     let mut d = Driver::new(f);
+    d.first(&sanitisation_slips(SLIP_BASES_LANGID));
     let alpha = gen::langid_alphabet();
     for k in 1..=cfg.pick(4, 5) {
         d.enumerate(&format!("langid alphabet ({} tokens), {k} subtags, '-'", alpha.len()), &alpha, k, b'-', b"");
@@ -291,6 +305,10 @@ pub fn langid_space(cfg: &Cfg, tag: &str, f: &ByteCheck<'_>) -> Stats {
 /// The locale space of C01 / C03 / C04 / C05 / C13.
 pub fn locale_space(cfg: &Cfg, tag: &str, f: &ByteCheck<'_>) -> Stats {
     let mut d = Driver::new(f);
+    {
+        let bases: Vec<&str> = SLIP_BASES_LANGID.iter().chain(SLIP_BASES_LOCALE.iter()).cloned().collect();
+        d.first(&sanitisation_slips(&bases));
+    }
     let full = gen::full_alphabet();
     let loc = gen::locale_alphabet();
     let core = gen::core_alphabet();
